@@ -129,16 +129,21 @@ def _translate_type(onnx_type):
     return onnxscript.onnx_types.onnx_type_to_onnxscript_repr(onnx_type, reversible=False)
 
 
-def _translate_signature(inputs, outputs):
-    """Produce the script-functions signature."""
+def _translate_signature(inputs, outputs, translate_name=None):
+    """Produce the script-functions signature.
+
+    translate_name maps an ONNX value name to the Python name used for it in the body.
+    """
+    if translate_name is None:
+        translate_name = _cleanup_variable_name
 
     def input_sig(inp: ValueInfoProto | str):
         if isinstance(inp, ValueInfoProto):
             # GraphProto inputs/outputs are ValueInfoProto
-            return f"{_cleanup_variable_name(inp.name)}: {_translate_type(inp.type)}"
+            return f"{translate_name(inp.name)}: {_translate_type(inp.type)}"
 
         # FunctionProto inputs/outputs are just strings
-        return _cleanup_variable_name(inp)
+        return translate_name(inp)
 
     result = f"({', '.join([input_sig(x) for x in inputs])})"
     if outputs and isinstance(outputs[0], ValueInfoProto):
@@ -752,13 +757,17 @@ class _Exporter:
             else ""
         )
         add(f"{indent}@script({default_opset})")
-        add(f"{indent}def {function_name}{_translate_signature(graph.input, graph.output)}")
+        # The parameters must carry the names the body uses for the graph inputs (rename=True
+        # hands out short names in the order of first use, so the body is translated first).
+        body = self._translate_graph_body(graph, opsets, indent=indent_level)
+        return_values = ", ".join(self._translate_onnx_var(x) for x in graph.output)
+        signature = _translate_signature(graph.input, graph.output, self._translate_onnx_var)
+        add(f"{indent}def {function_name}{signature}")
         indent = indent + _SINGLE_INDENT
         doc = graph.doc_string
         if doc:
             add(f'{indent}"""{doc}"""')
-        add(self._translate_graph_body(graph, opsets, indent=indent_level))
-        return_values = ", ".join(self._translate_onnx_var(x) for x in graph.output)
+        add(body)
         add(f"{indent}return {return_values}")
         script = "\n".join(result)
         if self.skipped_initializers:
